@@ -469,8 +469,10 @@ class Body:
                         pl = st[1]
                         if not pl[1]:
                             d[pl[0]].append(("stmt", i, j, st[2]))
-                        elif pl[1][0] != "*":   # a write through a dereference does not redefine the pointer local
+                        elif pl[1][0] != "*":
                             d[pl[0]].append(("part", i, j, pl, st[2]))
+                        else:   # a write through a dereference does not redefine the pointer local (but data flows into it)
+                            d[pl[0]].append(("dpart", i, j, pl, st[2]))
                     elif st[0] == "D" and (not st[1][1] or st[1][1][0] != "*"):
                         d[st[1][0]].append(("part", i, j, st[1], ["setdisc", st[2]]))
                 t = blk["t"]
@@ -487,7 +489,7 @@ class Body:
         return self._defs
 
     def single_def(self, l):
-        ds = [x for x in self.defs.get(l, []) if x[0] != "part"]
+        ds = [x for x in self.defs.get(l, []) if x[0] not in ("part", "dpart")]
         parts = [x for x in self.defs.get(l, []) if x[0] == "part"]
         if len(ds) == 1 and not parts:
             return ds[0]
